@@ -230,6 +230,7 @@ class Machine:
         self.steps = 0
         self.max_tol = 0.0
         self.factor_before = {}
+        self.max_revert_err = 0.0     # largest |restored - expected| in units of the tolerance
 
     # -- helpers --------------------------------------------------------------------------------------------------
     def bad(self, clause, msg):
@@ -576,6 +577,11 @@ class Machine:
         self.max_tol = max(self.max_tol, tol)
         X, y = obs_rows(np, e.obj)
         d = diff_entry(np, X, y, m.orig, m.lab, tol)
+        if d is None:
+            perm, _ = match_rows(np, X, y, m.orig, m.lab, tol)
+            self.max_revert_err = max(self.max_revert_err, float(np.max(np.abs(X - m.orig[perm]))) / tol)
+            if m.moved:
+                self.out.cls("revert-after-scale-and-move:restored")
         old_omin = m.omin
         expected = m.orig
         m.cur, m.orig = m.orig, None
@@ -919,7 +925,8 @@ def run_history(case):
     mach = Machine(out)
     mach.run(case["ops"])
     out.nontrivial = mach.nt
-    out.info = dict(max_ops=len(case["ops"]), max_pool=len(mach.live()), max_tolerance=mach.max_tol)
+    out.info = dict(max_ops=len(case["ops"]), max_pool=len(mach.live()), max_tolerance=mach.max_tol,
+                    max_revert_error_in_units_of_tolerance=mach.max_revert_err)
     return out
 
 
